@@ -171,8 +171,13 @@ func scriptCase(c *Ctx, fam *report.Family, f string, configured [][2]string, la
 // the effective settings come from Config.Get (a slot is populated iff its script is configured at either level).
 func scriptCaseRoute(c *Ctx, fam *report.Family, f string, configured [][2]string, label string, dir string, base *PkgSpec, viaOverride bool) {
 	paths := map[string]string{}
+	onePath := strings.HasPrefix(label, "one-file-for-every-slot")
 	for i, kv := range configured {
 		p := filepath.Join(dir, fmt.Sprintf("script-%s-%d", f, i))
+		if onePath {
+			// every slot names the very same file (one maintenance script for install and upgrade is common)
+			p = filepath.Join(dir, "script-"+f+"-shared")
+		}
 		if err := os.WriteFile(p, []byte(kv[1]), 0o644); err != nil {
 			c.Rep.Note("write script: %v", err)
 			return
@@ -339,6 +344,20 @@ func runC09(c *Ctx) error {
 		}
 		// edge cases: empty script file, and NUL bytes in rpm
 		scriptCase(c, fam, f, [][2]string{{"Scripts.PreInstall", ""}}, "empty-file", dir, base)
+		// one script file configured for every slot, and for every pair of slots
+		{
+			body := "#!/bin/sh\n# shared by every hook\necho \"$0 $@\"\n"
+			var all [][2]string
+			for _, sel := range sels {
+				all = append(all, [2]string{sel, body})
+			}
+			scriptCase(c, fam, f, all, "one-file-for-every-slot", dir, base)
+			for i := range sels {
+				for j := i + 1; j < len(sels); j++ {
+					scriptCase(c, fam, f, [][2]string{{sels[i], body}, {sels[j], body}}, "one-file-for-every-slot:pair", dir, base)
+				}
+			}
+		}
 		// a configured script that cannot be read (its path is a directory), next to readable ones: the slots are populated
 		// exactly when configured, so a package must not come out of this without the script – an error has to
 		for si, sel := range sels {
